@@ -203,6 +203,11 @@ class World:
                     if not d:
                         break
                 out = "eof"
+            elif kind == "combine":
+                ch.set_combine_stderr(True)
+            elif kind == "await_window":      # what an application polling send_ready() does: go on once the window has reopened
+                if not (ch.out_window_size > 0 or ch.closed):
+                    self.S.block(lambda: ch.out_window_size > 0 or ch.closed, None, "await_window")
             elif kind == "close":
                 ch.close()
             elif kind == "shutdown_write":
@@ -438,7 +443,8 @@ def tla_par(prog):
     return {"win": {X: par["win"][X] - d[X] for X in "AB"},
             "thresh": {X: min(par["win"][X] // 10, CAP) for X in "AB"},
             "maxpkt": {X: min(eff[other[X]] - 64, CAP) for X in "AB"},
-            "peermax": {X: min(par["pkt"][other[X]], CAP) for X in "AB"},
+            # (C19 bounds a message by the peer's maximum packet size only when that is at least the 4096-byte floor)
+            "peermax": {X: min(par["pkt"][other[X]], CAP) if par["pkt"][other[X]] >= MIN_PACKET_SIZE else CAP for X in "AB"},
             "tmo": dict(par["tmo"])}
 
 
